@@ -9,7 +9,7 @@
 import AferoVerif.Model.MemMapFs
 import AferoVerif.Proofs.Path
 import AferoVerif.Proofs.Reach
-import AferoVerif.Proofs.MemFsInv2
+import AferoVerif.Proofs.MemFsFragment
 import AferoVerif.Generated.Facts
 namespace AferoVerif.C01
 open AferoVerif AferoVerif.Path
@@ -114,23 +114,47 @@ example : (MemFs.run MemFs.init [.mkdir "/a".toList 0o755, .create "/a/f".toList
 /-- **the tree stays self-consistent** (every existing path is listed by its parent directory, every
     listed entry exists and is listed under its own name, every existing path has an existing parent
     directory, every name leads to an allocated object that carries that name): after any program
-    whose operations meet, in the state they run in, the ordinary preconditions `WFop` — Create,
-    Mkdir, MkdirAll, creating OpenFile below an existing directory; Remove of a file or an empty
-    directory; every metadata call, every open, every method of every handle, in any number and any
-    order. PARTIAL: Rename, RemoveAll and MkdirAll over several missing levels are outside this
-    fragment (for them the invariant is checked on the implementation, by reflection, after every
-    generated program). -/
+    whose operations meet, in the state they run in, the ordinary preconditions `WFop` — Create of
+    anything but an existing directory; Mkdir, MkdirAll and creating OpenFile of any name, **however
+    many levels are missing above it**; Remove of a file or an empty directory; **RemoveAll of any
+    name but the root, with whatever lies below it**; Rename of a file or an empty directory to a free name
+    or over another file or empty directory, below any existing directory (`MemFs.RenameLeaf`); every
+    metadata call, every open, every method of every handle, in any number and any order. PARTIAL: Rename
+    of a directory that has entries is outside this fragment (for it the invariant is checked on the
+    implementation, by reflection, after every generated program). -/
 theorem tree_consistent_fragment (ops : List Op) (hw : MemFs.WFrun MemFs.init ops) :
     MemFs.Consistent (MemFs.run MemFs.init ops) :=
   MemFs.consistent_run_wf ops MemFs.init MemFs.consistent_init hw
 
-/-- non-vacuity: a program of the fragment -/
-example : MemFs.WFrun MemFs.init [.mkdir "/a".toList 0o755, .create "/a/f".toList, .hWrite 0 [1, 2], .chmod "/a/f".toList 0o600, .remove "/a/f".toList, .remove "/a".toList] := by
-  refine ⟨Or.inr ⟨by decide, by decide, 0, [], by decide, by decide⟩, ?_⟩
-  refine ⟨Or.inr ⟨by decide, by decide, by decide, 1, [], by decide, by decide⟩, ?_⟩
+/-- the building blocks, stated for any consistent state: -/
+theorem removeAll_keeps_consistent (m : MemFs) (hc : MemFs.Consistent m) (p : Str) (h : (keyOfStr p).segs ≠ []) :
+    MemFs.Consistent (m.step (.removeAll p)).1 :=
+  MemFs.consistent_step_wf m _ hc h
+
+theorem mkdirAll_keeps_consistent (m : MemFs) (hc : MemFs.Consistent m) (p : Str) (perm : Nat) :
+    MemFs.Consistent (m.step (.mkdirAll p perm)).1 :=
+  MemFs.consistent_step_wf m _ hc trivial
+
+theorem rename_leaf_keeps_consistent (m : MemFs) (hc : MemFs.Consistent m) (a b : Str)
+    (h : MemFs.RenameLeaf m (keyOfStr a) (keyOfStr b)) : MemFs.Consistent (m.step (.rename a b)).1 :=
+  MemFs.consistent_step_wf m _ hc (Or.inr (Or.inr h))
+
+/-- **every existing path has all its ancestors** -/
+theorem ancestors_exist (m : MemFs) (hc : MemFs.Consistent m) (a k : Key) (f : Nat) (hn : normKey a = a)
+    (hl : m.lookup k = some f) (hu : isUnder a k = true) : (m.lookup a).isSome :=
+  MemFs.ancestor_exists m hc a hn _ k f rfl hl hu
+
+/-- non-vacuity: a program of the fragment (three levels created at once, a subtree removed) -/
+example : MemFs.WFrun MemFs.init [.mkdirAll "/a/b/c".toList 0o755, .create "/a/b/c/f".toList, .hWrite 0 [1, 2],
+    .chmod "/a/b/c/f".toList 0o600, .removeAll "/a/b".toList, .remove "/a".toList] := by
+  refine ⟨trivial, ?_⟩
+  refine ⟨(fun f h => nomatch (h.symm.trans (by decide : _ = none))), ?_⟩
   refine ⟨trivial, trivial, ?_⟩
-  refine ⟨Or.inr ⟨by decide, 2, by decide, Or.inl (by decide)⟩, ?_⟩
-  exact ⟨Or.inr ⟨by decide, 1, by decide, Or.inr (by decide)⟩, trivial⟩
+  refine ⟨(by decide : (keyOfStr "/a/b".toList).segs ≠ []), ?_⟩
+  exact ⟨Or.inr ⟨by decide, 3, by decide, Or.inr (by decide)⟩, trivial⟩
+
+example : (MemFs.run MemFs.init [.mkdirAll "/a/b/c".toList 0o755, .create "/a/b/c/f".toList, .removeAll "/a/b".toList]).data.map (·.1.render)
+    = ["/".toList, "/a".toList] := by decide
 
 /-! ### tie to the source: constants regenerated from the Go code on every run -/
 
